@@ -126,5 +126,68 @@ def rule_n(ctx):
     return res.finish(2)
 
 
+def rule_project(ctx):
+    """'Transform followed by inverse transform is the orthogonal projection onto the component subspace about the mean':
+    with E the stored components and m the stored mean, inverse_transform(predict(x)) must be the affine map
+    x.E^T.E - m.E^T.E + m. Both bodies are brought into the non-commutative normal form of rules/linalg.py and composed."""
+    from .linalg import Eval, NF, Unclassified, canon
+    from fractions import Fraction
+    res = RuleResult("R-C18-project", "inverse_transform o predict is, as an algebraic expression, the projection about the mean: x.E^T.E - m.E^T.E + m")
+    F = ctx.facts()
+    preds = [f for f in F.find_fns(name="predict_inplace", krate="linfa_reduction", trait="PredictInplace") if (f["d"].get("self_adt") or "").endswith("Pca")]
+    invs = [f for f in F.find_fns(name="inverse_transform", krate="linfa_reduction") if (f["d"].get("self_adt") or "").endswith("Pca")]
+    if not preds:
+        res.missing_anchor("<Pca as PredictInplace>::predict_inplace")
+    if not invs:
+        res.missing_anchor("Pca::inverse_transform")
+    if not preds or not invs:
+        return res.finish(2)
+    pf, vf = preds[0], invs[0]
+    try:
+        pe = Eval(pf)
+        pe.run()
+        outs = list(pe.out.items())
+        if len(outs) != 1:
+            raise Unclassified("predict_inplace does not assign its output parameter exactly once")
+        pnf = outs[0][1]
+        ve = Eval(vf)
+        vnf = ve.run()
+        if vnf is None:
+            raise Unclassified("inverse_transform has no value")
+    except Unclassified as e:
+        res.instance("Pca predict / inverse_transform : normal form")
+        res.violate("linfa_reduction::Pca : projection-unclassified", "cannot bring predict_inplace / inverse_transform into the dot/+/-/t normal form (fail closed): %s" % e.msg, fn_loc(pf if 'vnf' not in dir() else vf, e.ln))
+        return res.finish(2)
+    vectors = pe.vectors | ve.vectors
+    renorm = lambda nf: NF(dict((canon(ch, vectors), v) for ch, v in nf.t.items())) if len(set(canon(ch, vectors) for ch in nf.t)) == len(nf.t) else nf
+    pnf, vnf = renorm(pnf), renorm(vnf)
+    xname = [b for b in (p_["name"] for p_ in pf["params"] if p_.get("k") == "Bind") if b != "self"][0]
+    zname = [b for b in (p_["name"] for p_ in vf["params"] if p_.get("k") == "Bind") if b != "self"][0]
+    fields = set(n for ch in list(pnf.t) + list(vnf.t) for n, f in ch if n.startswith("self."))
+    mats = sorted(f for f in fields if f not in vectors)
+    vecs = sorted(f for f in fields if f in vectors)
+    res.instance("%s : *targets = %s" % (fn_key(pf), pnf.show()))
+    res.instance("%s : returns %s" % (fn_key(vf), vnf.show()))
+    if len(mats) != 1 or len(vecs) != 1:
+        res.violate("linfa_reduction::Pca : projection-fields", "expected exactly one matrix field (components) and one vector field (mean) in predict/inverse_transform, found %s / %s" % (mats, vecs), fn_loc(pf))
+        res.violate("linfa_reduction::Pca : projection-fields#2", "see above", fn_loc(vf))
+        return res.finish(2)
+    E, m = mats[0], vecs[0]
+    one = Fraction(1)
+    want_pred = NF({((xname, False), (E, True)): one, ((m, False), (E, True)): -one})
+    if pnf == want_pred:
+        res.ok()
+    else:
+        res.violate("%s : not-centred-projection" % fn_key(pf), "predict computes `%s`, not `(x - mean) . components^T` = `%s`" % (pnf.show(), want_pred.show()), fn_loc(pf))
+    comp = vnf.subst(zname, pnf, vectors)
+    want = NF({((xname, False), (E, True), (E, False)): one, ((m, False), (E, True), (E, False)): -one, ((m, False),): one})
+    res.sample({"predict": pnf.show(), "inverse_transform": vnf.show(), "composition": comp.show(), "required": want.show()})
+    if comp == want:
+        res.ok()
+    else:
+        res.violate("%s : not-projection-about-mean" % fn_key(vf), "inverse_transform(predict(x)) is `%s`; the projection onto the component subspace about the mean is `%s`" % (comp.show(), want.show()), fn_loc(vf))
+    return res.finish(2)
+
+
 def rules(tier):
-    return [rule_guard, rule_n]
+    return [rule_guard, rule_n, rule_project]
